@@ -414,12 +414,59 @@ class FakePoll(object):
         self.closed = True
 
 
-def wait_readable(w, socks, timeout, scale=1.0):
+class FakeEpoll(FakePoll):
+    """select.epoll as documented (epoll(7)): level-triggered like poll() unless the descriptor was registered with EPOLLET;
+    then readiness is reported ONCE per arrival (edge) - data left unread after that report produces no further event.
+    In the scripted transport everything the peer sends is one arrival (new arrivals: bytes added by a later script phase,
+    and the end of the stream, which is an arrival of its own).  Timeout in seconds."""
+
+    def __init__(self, *a, **k):
+        FakePoll.__init__(self)
+        self.et = {}
+
+    def register(self, fd, eventmask=1):
+        self.fds.append(fd)
+        self.et[fd] = bool(eventmask & EPOLLET)
+
+    def modify(self, fd, eventmask):
+        self.et[fd] = bool(eventmask & EPOLLET)
+
+    def poll(self, timeout=None, maxevents=-1):
+        w = World.cur
+        w.wait_calls = getattr(w, 'wait_calls', 0) + 1
+        if w.wait_calls > 4 * w.max_waits + 50:
+            raise LoopBudget('more than %d selector wait calls' % (4 * w.max_waits + 50))
+        w.op('wait', None)
+        socks = [w.fd_map[fd] for fd in self.fds]
+        if timeout is not None and timeout < 0:
+            timeout = None
+        return wait_readable(w, socks, timeout, scale=1.0, edge={w.fd_map[fd].id for fd in self.fds if self.et.get(fd)})
+
+
+EPOLLET = 1 << 31
+
+
+def _edge_ready(s):
+    """edge-triggered readiness of a scripted socket: an arrival not yet reported"""
+    sc = s._script()
+    seen = getattr(s, 'edge_seen', (-1, False))
+    now = (len(sc.items), sc.remaining() == 0 and sc.end in ('eof', 'error', 'exception'))
+    # a new arrival: more bytes exist than at the last report, or the stream end became visible
+    if now[0] > seen[0] or (now[1] and not seen[1]):
+        return True
+    return False
+
+
+def wait_readable(w, socks, timeout, scale=1.0, edge=()):
     """the one place where virtual time advances"""
     w.waits += 1
     if w.waits > w.max_waits:
         raise LoopBudget('more than %d selector waits' % w.max_waits)
-    ready = [s for s in socks if s.readable()]
+    ready = [s for s in socks if s.readable() and (s.id not in edge or _edge_ready(s))]
+    for s in ready:
+        if s.id in edge:
+            sc = s._script()
+            s.edge_seen = (len(sc.items), sc.remaining() == 0 and sc.end in ('eof', 'error', 'exception'))
     adv = getattr(w, 'advance', None)
     if adv is not None:
         return adv(w, socks, ready, timeout, scale)
@@ -450,6 +497,12 @@ class FakeSelectModule(object):
     @staticmethod
     def poll():
         return FakePoll()
+
+    EPOLLIN, EPOLLPRI, EPOLLERR, EPOLLHUP, EPOLLET = 1, 2, 8, 16, 1 << 31
+
+    @staticmethod
+    def epoll(*a, **k):
+        return FakeEpoll()
 
     @staticmethod
     def select(r, wl, x, timeout=None):
